@@ -93,7 +93,7 @@ pub fn check_step(ctx: &mut Ctx, s: &Step) -> Result<(), Violation> {
             for j in 0..2u64 {
                 let m = legal[((h >> (8 * j)) % legal.len() as u64) as usize];
                 let nn = np.apply(m);
-                let nnb = nb.make_move_new(bridge::mv(m));
+                let nnb = bridge::advance(&nb, bridge::mv(m), (h >> 20) + j, s.board);
                 let c2 = || s.case_with(json!({"then": format!("null move, {}, null move", m.uci())}));
                 ctx.count("interleaved_null_after_move", 1);
                 check_null(ctx, &nn, &nnb, &c2)?;
